@@ -1,6 +1,6 @@
 SPECIFICATION Spec
 CONSTANTS N = 2
-  Walker = "pages"
+  Walkers = {"pages"}
   MaxDepth = 4
   MaxChain = 3
   StackCap = 12
